@@ -13,6 +13,7 @@ import Driver.LatchDrv
 import Driver.OnceDrv
 import Driver.EraseDrv
 import Driver.MtxDrv
+import Driver.CfgDrv
 /-! `driver <model>`: reads harness output (cases) on stdin, prints one verdict line per case. -/
 open Driver
 
@@ -33,6 +34,7 @@ def dispatch (model : String) (c : Case) : String :=
   | "c09l" => if c.get "kind" == "latch" then LatchDrv.runCase c else OnceDrv.runCase c
   | "erase" => EraseDrv.runCase c
   | "mtx" => MtxDrv.runCase c
+  | "cfg" => CfgDrv.runCase c
   | _ => s!"case {c.id} reject 0 unknown-model-{model}"
 
 def main (args : List String) : IO UInt32 := do
